@@ -35,7 +35,7 @@ end Clock
 
 /-! ## LastingStack -/
 namespace LastingStack
-theorem elapse_add (s : LastingStack) (a b : Int) (ha : 0 ≤ a) (hb : 0 ≤ b) :
+theorem elapse_add (s : LastingStack) (a b : Int) (_ha : 0 ≤ a) (hb : 0 ≤ b) :
     (s.elapse a).elapse b = s.elapse (a + b) := by
   unfold elapse reset
   simp only []
